@@ -128,8 +128,10 @@ CLAIMS = {
         design_ref="DESIGN.md §6 C15",
         text="Partial: emit/advance typestate of Buffer.__iter__, PrintBuffer.print/flush (each emission followed by "
              "deletion of the emitted key and a cursor write before the next emission or exit), observers return the "
-             "cursor/len, reset agreement of flush/clear, ring bounds guard by ordering abstraction and saturation guard "
-             "of put. The ring index arithmetic and the '+1' of the cursor are value-level and not decided.",
+             "cursor/len, reset agreement of flush/clear on all paths, ring bounds guard by ordering abstraction, saturation "
+             "guard of put, and writer/reader agreement of the ring slots (put advances the write offset by one modulo the "
+             "capacity; item i is read from slot write-offset - size + i, compared as linear normal forms). A guarded "
+             "alternative slot expression and the '+1' of the reorder cursor beyond 'advanced once per emission' are not decided.",
         level_note=STATIC_BASE,
         technique="static analysis: typestate abstract interpretation, ordering abstraction of guards, reset agreement"),
     "C16": dict(
